@@ -286,6 +286,10 @@ func c16Accesses(r *Run, g *G, h c16Hier, k int) []c16Access {
 	}
 	add("write.inst", fmt.Sprintf("o1 = %s()\no2 = %s()\no1.x = 'inst'\nrec('o1.x', lambda: (o1.x, t(lambda: o2.x), t(lambda: %s.x)))", ck, ck, ck))
 	add("write.inst.setattr", fmt.Sprintf("o3 = %s()\nsetattr(o3, 'x', 'inst3')\nrec('o3.x', lambda: (o3.x, t(lambda: %s().x)))", ck, ck))
+	// an instance attribute shadows a method, classmethod or staticmethod of the same name - for that instance only
+	add("write.inst.shadow-method", fmt.Sprintf("o4 = %s()\no5 = %s()\no4.m = 'inst-m'\no4.cm = 'inst-cm'\no4.sm = lambda *a: 'inst-sm'\nrec('o4 shadows', lambda: (o4.m, o4.cm, o4.sm(1), t(lambda: o5.m()[0]), t(lambda: o5.cm()[0]), t(lambda: o5.sm(1)), t(lambda: %s.m(o4)[0])))", ck, ck, ck))
+	add("delete.inst.shadow-method", "rec('del o4.m', lambda: delattr(o4, 'm'))\nrec('o4.m after del', lambda: (t(lambda: o4.m()[0]), o4.cm, t(lambda: delattr(o4, 'm'))))")
+	add("write.inst.in-init", fmt.Sprintf("class Sub%s(%s):\n    def __init__(self, tag):\n        self.m = tag\n        self.x = tag\nrec('init shadows', lambda: (Sub%s('t1').m, Sub%s('t2').x, t(lambda: Sub%s.m(Sub%s('t3'))[0])))", ck, ck, ck, ck, ck, ck))
 	add("delete.inst", "rec('del o1.x', lambda: delattr(o1, 'x'))\nrec('o1.x after del', lambda: o1.x)\nrec('del o1.x again', lambda: delattr(o1, 'x'))")
 	add("write.class", fmt.Sprintf("%s.x = 'set-on-%s'\nrec('o2.x', lambda: o2.x)", ck, ck))
 	allReads("write.class")
